@@ -136,6 +136,22 @@ PY_ARGS = [
     ('Cnt(x, k) = x{k}', 'Cnt("a", `2 if True else 3`) << /a*/', '"a"{2} << /a*/'),
     ('Cnt(x, k) = x{k}', 'let n = `1` in Cnt("a", ` n + 1 `) << /a*/', '"a"{2} << /a*/'),
 ]
+# a call whose argument is itself a call with inline Python arguments: that Python is evaluated where and when the outer
+# body uses the parameter - not at all on a path that does not use it, once per use otherwise.  (prelude with Python section,
+# template definitions, call, expansion, texts parsed in this order on both modules)
+TICKETS = '```\nimport itertools\nticket = itertools.count()\ndef push(acc):\n    return lambda v: (acc.append(v), list(acc))[1]\n```\n'
+NESTED_PY = [
+    ('', 'N = /\\d/ |> `int`\nMaybe(x) = "!" >> x | "?"\nRep(x, n) = x{n}', 'let n = N in Maybe(Rep("a", `6 // n`))', 'let n = N in ("!" >> "a"{`6 // n`} | "?")',
+     ['0?', '3!aa', '6!a', '2?', '0!', '3!a', '']),
+    ('', 'N = /\\d/ |> `int`\nMaybe(x) = "!" >> x | "?"\nRep(x, n) = x{n}', 'let n = N in Maybe(x=Rep(n=`6 // n`, x="a"))', 'let n = N in ("!" >> "a"{`6 // n`} | "?")',
+     ['0?', '3!aa', '2?', '0!']),
+    (TICKETS, 'Both(x) = [x, ",", x]\nStamp(w, t) = w >> `t`', 'Both(Stamp("a", `next(ticket)`))', '[("a" >> `next(ticket)`), ",", ("a" >> `next(ticket)`)]',
+     ['a,a', 'a,a', 'a', 'a,a']),
+    (TICKETS, 'Both(x) = [x, ",", x]\nCollect(w, acc) = w |> `push(acc)`', 'Both(Collect("a", `[]`))', '[("a" |> `push([])`), ",", ("a" |> `push([])`)]',
+     ['a,a', 'a,a', 'a,b']),
+    (TICKETS, 'Thrice(x) = [x, x, x]\nStamp(w, t) = w >> `t`\nWrap(y) = "(" >> y << ")"', 'Thrice(Wrap(Stamp("a", `next(ticket)`)))',
+     '[("(" >> ("a" >> `next(ticket)`) << ")"), ("(" >> ("a" >> `next(ticket)`) << ")"), ("(" >> ("a" >> `next(ticket)`) << ")")]', ['(a)(a)(a)', '(a)(a)', '(a)(a)(a)']),
+]
 
 
 def python_arguments(R):
@@ -159,6 +175,32 @@ def python_arguments(R):
                     R.counterexample('python-arguments', 'call-differs-from-expansion', dict(case, text=text), b, a)
                 else:
                     R.traces += 1
+
+
+def nested_python_arguments(R):
+    sys.path.insert(0, core.REPO)
+    from sourcer import Grammar
+    from .c11 import outcome
+    for named in (False, True):
+        for k, (pre, defs, call, expansion, texts) in enumerate(NESTED_PY):
+            head = f'grammar c06np{k}\n' if named else ''
+            case = {'call': head + pre + f'start = {call}\n{defs}\n', 'expansion': pre + f'start = {expansion}\n' + defs.split('\n')[0] * ('N = ' in defs.split('\n')[0]) + '\n'}
+            try:
+                gc, ge = Grammar(case['call']), Grammar(case['expansion'])
+            except Exception as e:          # noqa
+                R.count('nested-python-arguments', (named, k))
+                R.counterexample('nested-python-arguments', 'call-site-rejected:' + type(e).__name__, case, 'two grammar modules', str(e)[:160])
+                continue
+            hist = []
+            for text in texts:
+                R.count('nested-python-arguments', (named, k, len(hist), text), nontrivial=True)
+                a, b = outcome(gc, text), outcome(ge, text)
+                hist.append(text)
+                if a != b:
+                    R.counterexample('nested-python-arguments', 'call-differs-from-expansion', dict(case, texts_in_order=list(hist)), b, a)
+                    break
+            else:
+                R.traces += 1
 
 
 def inherited_templates(R):
@@ -218,6 +260,7 @@ def run(R):
     R.build()
     R.prove('Props/C06.v')
     python_arguments(R)
+    nested_python_arguments(R)
     inherited_templates(R)
     jobs, gid, pairs = [], 0, {}
     for named in (False, True):
